@@ -111,7 +111,7 @@ type cfg struct {
 	noCookie  bool   // RP without cookie handler: property does not apply (Either)
 	maxStarts int
 	depth     int
-	pair      bool // thorough: state-cookie manipulation x pkce-cookie manipulation
+	pair      bool // state-cookie manipulation x pkce-cookie manipulation (full product) instead of one manipulation
 	rich      bool // thorough: POST form callbacks, missing code, partially different keys, empty value
 }
 
@@ -149,7 +149,7 @@ func canon(s S) string {
 
 type cbOp struct {
 	qs string // s<k> | case | pre | suf | none | bogus
-	k  string // code | error | nocode
+	k  string // code | error | codecv (code + a code_verifier parameter in the query) | nocode
 	sc string // state-cookie manipulation
 	pc string // pkce-cookie manipulation
 	pv string // ok | refuse
@@ -240,7 +240,7 @@ func (p *cfg) ops(s S) []string {
 			pcs = append(pcs, "trunc")
 		}
 	}
-	kinds := []string{"code", "error"}
+	kinds := []string{"code", "error", "codecv"}
 	ms := []string{"get"}
 	if p.rich {
 		kinds = append(kinds, "nocode")
@@ -643,6 +643,9 @@ func (w *world) callback(o cbOp, judge bool) (engine.Result, string) {
 	switch o.k {
 	case "code":
 		q.Set("code", code)
+	case "codecv": // the query tries to supply a verifier of its own
+		q.Set("code", code)
+		q.Set("code_verifier", forgedVer)
 	case "error":
 		q.Set("error", "access_denied")
 		q.Set("error_description", "the user said no")
@@ -850,7 +853,7 @@ func (w *world) judgeCallback(o cbOp, sProv, pProv prov, match bool, qstate, cod
 	}
 	// every token request that was sent must be bound to the callback and the presented pkce cookie
 	for _, r := range tok {
-		if o.k == "code" && r.Form.Get("code") != code {
+		if o.k != "nocode" && r.Form.Get("code") != code {
 			return engine.Bad("match/token-request", outcome, "C17/token-request/callback/code", detail())
 		}
 		if p.pkce {
@@ -900,6 +903,8 @@ func (w *world) judgeCallback(o cbOp, sProv, pProv prov, match bool, qstate, cod
 		rule = "match/provider-refuses/either"
 	case o.k == "nocode":
 		rule = "match/no-code/either"
+	case o.k == "codecv" && natural:
+		rule = "match/query-verifier/either"
 	case o.sc != "asis":
 		rule = "match/earlier-state-cookie/either"
 	default:
@@ -1029,7 +1034,7 @@ func TestCheck(t *testing.T) {
 	)
 	var parts []*cfg
 	add := func(name string, f func(*cfg)) {
-		p := &cfg{name: name, enc: true, maxStarts: engine.Pick(c, 2, 3), depth: engine.Pick(c, 5, 6), rich: c.Thorough(), pair: c.Thorough()}
+		p := &cfg{name: name, enc: true, maxStarts: engine.Pick(c, 2, 3), depth: engine.Pick(c, 5, 6), rich: c.Thorough(), pair: true}
 		f(p)
 		parts = append(parts, p)
 	}
@@ -1042,11 +1047,13 @@ func TestCheck(t *testing.T) {
 			if jw != "" {
 				name += "-jwt"
 			}
-			add(name, func(p *cfg) { p.pkce, p.jwt = pk, jw })
-			add(strings.Replace(name, "oauth", "oidc", 1), func(p *cfg) { p.oidc, p.pkce, p.jwt = true, pk, jw })
+			// quick: the full state-manipulation x pkce-manipulation product on two of the PKCE parts,
+			// one manipulation per callback on the others; thorough: the product everywhere
+			add(name, func(p *cfg) { p.pkce, p.jwt, p.pair = pk, jw, c.Thorough() || jw == "" })
+			add(strings.Replace(name, "oauth", "oidc", 1), func(p *cfg) { p.oidc, p.pkce, p.jwt, p.pair = true, pk, jw, c.Thorough() || jw != "" })
 		}
 	}
-	add("oauth-pkce-signonly", func(p *cfg) { p.pkce, p.enc = true, false })
+	add("oauth-pkce-signonly", func(p *cfg) { p.pkce, p.enc, p.pair = true, false, c.Thorough() })
 	add("oidc-signonly", func(p *cfg) { p.oidc, p.enc = true, false })
 	if c.Thorough() {
 		add("oidc-pkce-jwt-rsa", func(p *cfg) { p.oidc, p.pkce, p.jwt = true, true, "rsa_pkcs1" })
